@@ -1835,8 +1835,63 @@ func sameGroupKey(a, b any) bool {
 	return reflect.DeepEqual(a, b)
 }
 
+// withSelectAliases returns the group row together with the select-list aliases
+// that HAVING names (HAVING s > 3 for SUM(v) AS s). HAVING decides about a
+// group before the select list is evaluated for it, so an aliased expression
+// that HAVING refers to is evaluated on the group here. A name the group row
+// already has (a grouping column) keeps its meaning
+func withSelectAliases(query *Query, current Map, opts ...ExprOption) (Map, error) {
+	row := current
+	cloned := false
+	err := sqlparser.Walk(func(node sqlparser.SQLNode) (bool, error) {
+		switch node := node.(type) {
+		case *sqlparser.Subquery:
+			{
+				// the names inside a nested select are its own
+				return false, nil
+			}
+		case *sqlparser.ColName:
+			{
+				if !node.Qualifier.IsEmpty() {
+					return true, nil
+				}
+				name := node.Name.String()
+				if _, ok := row[name]; ok {
+					return true, nil
+				}
+				for _, slct := range query.selectDefinition.Exprs {
+					aliased, ok := slct.(*sqlparser.AliasedExpr)
+					if !ok || aliased.As.String() != name {
+						continue
+					}
+					value, err := Expr(query, current, aliased.Expr, opts...)
+					if err != nil {
+						return false, err
+					}
+					value, err = ValueOf(query, current, value)
+					if err != nil {
+						return false, err
+					}
+					if !cloned {
+						row = maps.Clone(current)
+						cloned = true
+					}
+					row[name] = value
+					break
+				}
+			}
+		}
+		return true, nil
+	}, query.havingDefinition.Expr)
+	return row, err
+}
+
 func ExecHaving(query *Query, current Map, opts ...ExprOption) (bool, error) {
 	if query.havingDefinition != nil {
+		current, err := withSelectAliases(query, current, opts...)
+		if err != nil {
+			return false, err
+		}
 		rs, err := Expr(query, current, query.havingDefinition.Expr, opts...)
 		if err != nil {
 			return false, err
